@@ -5,6 +5,7 @@ from props.common import LineRunner
 from props.pcommon import *
 
 LEAN_TARGETS = ["Plonk.Props.C18"]
+EXTRA_CRATES = ["harness-alloc"]   # rebuilt from /repo's working tree on every run
 ASSUMPTIONS = ["real thread interleavings, the transcript-label cache mutex and memory-model effects are outside any executable model; "
                "Rust's data-race freedom for safe code is trusted", "rayon's order-preserving collect / par_chunks_mut are trusted"]
 THEOREMS_NOTE = "Plonk/Props/C18.lean (+ C19Fft.fft_threads_irrelevant)"
